@@ -12,6 +12,8 @@ from simkit import fakes3
 
 KINDS = ['memory', 'file', 's3']
 S3_PREFIXES = ['a', 'ab', 'a/b', 'b', '']
+# prefixes spelt with the words of the cassette's own key layout (tape_recorder_recordings/{full,metadata}/<id>)
+S3_LAYOUT_PREFIXES = ['metadata', 'svc/metadata', 'metadata/v2', 'full']
 SCRATCH = '/dev/shm' if os.path.isdir('/dev/shm') and os.access('/dev/shm', os.W_OK) else tempfile.gettempdir()
 
 
@@ -96,6 +98,6 @@ def gen_store(tape, clock=None, kinds=None, nonempty_prefix=True):
     prefix = 'a'
     page = 1000
     if kind == 's3':
-        prefix = tape.choice(S3_PREFIXES[:4] if nonempty_prefix else S3_PREFIXES)
+        prefix = tape.choice((S3_PREFIXES[:4] if nonempty_prefix else S3_PREFIXES) + S3_LAYOUT_PREFIXES)
         page = tape.choice([1000, 1, 2])
     return Store(kind, key_prefix=prefix, page_size=page, clock=clock)
